@@ -32,14 +32,19 @@ def do_case(ctx, inp):
         arr = pnd.integer_ndarray(arr)            # the library's own array classes as points (default labels)
     elif inp.get("ptype") == "boolean_ndarray" and arr.size and arr.min() >= 0 and arr.max() <= 1:
         arr = pnd.boolean_ndarray(arr)
-    sat = tolist(g.ineqs_satisfied(arr))
-    sep = tolist(g.separable(arr))
-    rowsep = tolist(g.ineq_separate_points(arr))
+    try:
+        sat = tolist(g.ineqs_satisfied(arr))
+        sep = tolist(g.separable(arr))
+        rowsep = tolist(g.ineq_separate_points(arr))
+    except Exception as e:
+        # every point has a classification: raising on a polyhedron / points pair of legal shape is a wrong answer
+        ctx.case(inp, True, {"classification-raised"})
+        ctx.fail("classification-raised", {"exception": f"{type(e).__name__}: {str(e)[:200]}"}); return
     flat = [pts] if d == 1 else pts if d == 2 else [x for grp in pts for x in grp]
     def viol(x): return [dot(cs, x) < b for b, cs in p["rows"]]
     vs = [viol(x) for x in flat]
     facet = any(dot(cs, x) == b for x in flat for b, cs in p["rows"])
-    ctx.case(inp, nontrivial=facet or any(any(v) and not all(v) for v in vs), tags=({"thousands-of-points"} if inp.get("big") else set()) | ({"magnitudes-above-2^53"} if inp.get("huge") else set()) | ({"points-as-" + inp["ptype"]} if inp.get("ptype") else set()) | ({"layout-" + inp["layout"]} if inp.get("layout") else set()) | {f"ndim-{d}", "poly-dtype-" + str(inp.get("pdtype", "int64")), "points-dtype-" + str(inp.get("xdtype", "int64"))}
+    ctx.case(inp, nontrivial=facet or any(any(v) and not all(v) for v in vs), tags=({"thousands-of-points"} if inp.get("big") else set()) | ({"magnitudes-above-2^53"} if inp.get("huge") else set()) | ({"polyhedron-without-rows"} if inp.get("norows") else set()) | ({"points-as-" + inp["ptype"]} if inp.get("ptype") else set()) | ({"layout-" + inp["layout"]} if inp.get("layout") else set()) | {f"ndim-{d}", "poly-dtype-" + str(inp.get("pdtype", "int64")), "points-dtype-" + str(inp.get("xdtype", "int64"))}
              | ({"facet-point"} if facet else set())
              | ({"row-sum-exceeds-narrow-dtype"} if inp.get("pdtype") in ("int8", "int16") and any(abs(dot(cs, x)) > (127 if inp["pdtype"] == "int8" else 32767) for x in flat for _, cs in p["rows"]) else set()))
     ctx.op({"op": "classify", "p": p, "d": d, "pts": pts}, {"sat": sat, "sep": sep, "rowsep": rowsep})
@@ -105,6 +110,14 @@ def run(ctx):
         do_case(ctx, big_case(ctx.rng))
     for _ in range((60 if ctx.quick else 600) * (3 if ctx.search else 1)):
         do_case(ctx, huge_case(ctx.rng))
+    for _ in range((40 if ctx.quick else 300) * (3 if ctx.search else 1)):
+        # a polyhedron without rows (nothing to violate: every point satisfies it)
+        p = gen_poly(ctx.rng, ctx.quick)
+        p = {"bnds": p["bnds"], "rows": []}
+        d = ctx.rng.choice([1, 2, 3])
+        pts = gen_point(ctx.rng, p) if d == 1 else [gen_point(ctx.rng, p) for _ in range(ctx.rng.randint(1, 3))] if d == 2 else \
+            [[gen_point(ctx.rng, p) for _ in range(2)] for _ in range(ctx.rng.randint(1, 2))]
+        do_case(ctx, {"p": p, "d": d, "pts": pts, "norows": True})
     n = (1200 if ctx.quick else 12000) * (3 if ctx.search else 1)
     for _ in range(n):
         p = gen_poly(ctx.rng, ctx.quick)
